@@ -231,8 +231,8 @@ func VerifHarness_C02_SetBounds() { hIterOps(2, 2, 3, hSetRDel, false, false, tr
 
 func VerifHarness_C02_Limits() { hIterOps(2, 2, 2, hSetDelRDel, false, true, false) }
 
-func VerifHarness_C02_Ops3_Thorough()    { hIterOps(2, 2, 3, hSetDelRDel, false, false, false) }
-func VerifHarness_C02_Limits3_Thorough() { hIterOps(2, 2, 3, hSetRDel, false, true, false) }
+func VerifHarness_C02_Ops3_Deep()    { hIterOps(2, 2, 3, hSetDelRDel, false, false, false) }
+func VerifHarness_C02_Limits3_Deep() { hIterOps(2, 2, 3, hSetRDel, false, true, false) }
 
 // bounds and SetBounds with the real levelIter as the bottom level (bounds propagation)
 func VerifHarness_C02_BoundsLevelIter_Thorough() {
